@@ -101,6 +101,9 @@ func main() {
 			// an OpenSSH file with private half = seed of Ed(1), public half = public key of Ed(0): it passes the comparison
 			// with the declared key, so it is remembered (it opens nothing); files to Ed(1) must stay closed to it
 			{"ed25519-forged-halves", keys.Ed(0), keys.Ed(1), keys.EdForgedEncPEM(), true},
+			// the key file holds an RSA key with the declared key's modulus but another public exponent: another public
+			// key (other wire encoding, other tag), which must not be taken for the declared one
+			{"rsa-declared-sibling-exponent-stored", keys.RSASibling(0), keys.RSASibling(1), keys.RSASiblingStoredEncPEM(), false},
 		}
 		wrap := func(k *keys.Key, fk []byte) *age.Stanza {
 			s, err := k.Rcpt.Wrap(fk)
